@@ -210,9 +210,28 @@ static struct vthread *thread_of(pthread_t p)
 }
 
 /* ------------------------------------------------------------------ transport helpers */
+/* Descriptor NUMBERS.  By default a connection to host h is handed the numbers VFD_BASE+2h (stdout) and
+ * VFD_BASE+2h+1 (stderr).  `lowfds <mask>` says which of the descriptors 0, 1, 2 are FREE when dsh() starts (pdsh
+ * started with stdin closed: mask 1; with all of stdio closed: 7): like the kernel, the transport then hands out
+ * the lowest free number first, and a close() gives it back.  rcmd_connect() returning 0 is a SUCCESS.
+ * low_owner[k] = the virtual descriptor that number k currently stands for, -1 = free, -2 = not ours. */
+static int low_owner[3] = { -2, -2, -2 };
+static int vmap(int fd)
+{
+    return (fd >= 0 && fd < 3 && low_owner[fd] >= 0) ? low_owner[fd] : fd;
+}
+static int low_take(int vfd)
+{
+    int k;
+    for (k = 0; k < 3; k++)
+        if (low_owner[k] == -1) { low_owner[k] = vfd; return k; }
+    return vfd;
+}
 static struct script *script_of(int fd)
 {
-    int h = (fd - VFD_BASE) / 2;
+    int h;
+    fd = vmap(fd);
+    h = (fd - VFD_BASE) / 2;
     if (fd < VFD_BASE || h >= nvhosts)
         return NULL;
     return &vhosts[h].s[(fd - VFD_BASE) & 1];
@@ -559,7 +578,7 @@ static int apply(struct vthread *t, int spurious, int inl)
             else if (r == 2) p[j].revents = POLLERR;
             else if (r == 3) p[j].revents = POLLNVAL;
             if (p[j].revents) n++;
-            if (!q) fprintf(stdout, " %d:%d", p[j].fd, p[j].revents);
+            if (!q) fprintf(stdout, " %d:%d", vmap(p[j].fd), p[j].revents);
             t->hist = mix(t->hist, (uint64_t) p[j].revents);
         }
         if (!q) fprintf(stdout, " = %ld\n", n);
@@ -595,7 +614,10 @@ static int apply(struct vthread *t, int spurious, int inl)
     }
     case OP_CLOSE: {
         struct script *s = script_of((int) o->a);
+        int k;
         if (s) s->closed = 1;
+        for (k = 0; k < 3; k++)
+            if (low_owner[k] == (int) o->a) low_owner[k] = -1;      /* the number is free again */
         if (!q) { evhdr(t, inl); fprintf(stdout, "close %ld\n", o->a); }
         o->ret = 0;
         return 1;
@@ -622,7 +644,8 @@ static int apply(struct vthread *t, int spurious, int inl)
         h->nend++;
         if (t->interrupted) { t->interrupted = 0; o->ret = -1; o->err = EINTR; }
         else if (h->conn_kind == CONN_OK) {
-            o->ret = VFD_BASE + 2 * o->a; h->connected = 1;
+            o->ret = low_take(VFD_BASE + 2 * (int) o->a); h->connected = 1;
+            o->b = h->want_efd ? low_take(VFD_BASE + 2 * (int) o->a + 1) : -1;
             h->death = !h->life_set ? 0 : h->life < 0 ? NEVER : vclock + h->life;
             if (reltime) {      /* the remote side's stream script starts now */
                 int k2, j2;
@@ -632,7 +655,11 @@ static int apply(struct vthread *t, int spurious, int inl)
             }
         }
         else { o->ret = -1; o->err = ECONNREFUSED; }
-        if (!q) { evhdr(t, inl); fprintf(stdout, "connectEnd %ld %ld\n", o->a, o->ret); }
+        if (!q) {
+            evhdr(t, inl); fprintf(stdout, "connectEnd %ld %ld", o->a, o->ret);
+            if (o->ret >= 0 && o->ret < 3) fprintf(stdout, " lowfd");
+            fprintf(stdout, "\n");
+        }
         t->hist = mix(t->hist, (uint64_t) o->ret);
         return 1;
     }
@@ -660,8 +687,10 @@ static int apply(struct vthread *t, int spurious, int inl)
     case OP_FWD:
         nfwd++;
         if (o->a >= 0 && o->a < nvhosts && (o->b == SIGKILL || ((o->b == SIGTERM || o->b == SIGINT) &&
-                                                                 !vhosts[o->a].ignoreterm)))
-            if (vhosts[o->a].death > vclock) vhosts[o->a].death = vclock;
+                                                                 !vhosts[o->a].ignoreterm))) {
+            long when = vclock + (o->b == SIGKILL ? 0 : vhosts[o->a].termgrace);
+            if (vhosts[o->a].death > when) vhosts[o->a].death = when;
+        }
         if (!q) { evhdr(t, inl); fprintf(stdout, "fwd %ld %ld\n", o->a, o->b); }
         o->ret = 0;
         return 1;
@@ -1004,7 +1033,7 @@ int __wrap_poll(struct pollfd *fds, nfds_t n, int timeout)
     struct op o = { .kind = OP_POLL, .cls = Y_IO, .obj = fds, .a = (long) n, .b = timeout };
     struct op *r;
     for (i = 0; i < n; i++)
-        if (fds[i].fd >= 0 && fds[i].fd < VFD_BASE)
+        if (fds[i].fd >= 0 && vmap(fds[i].fd) < VFD_BASE)
             return __real_poll(fds, n, timeout);
     o.ret = timeout >= 0 ? vclock + (timeout + 999) / 1000 : 0;
     r = sched_do(o);
@@ -1015,6 +1044,7 @@ ssize_t __wrap_read(int fd, void *buf, size_t n)
 {
     struct op o = { .kind = OP_READ, .cls = Y_IO, .obj = buf, .a = fd, .b = (long) n };
     struct op *r;
+    o.a = fd = vmap(fd);
     if (fd < VFD_BASE) return __real_read(fd, buf, n);
     r = sched_do(o);
     if (r->ret < 0) errno = r->err;
@@ -1022,8 +1052,8 @@ ssize_t __wrap_read(int fd, void *buf, size_t n)
 }
 int __wrap_close(int fd)
 {
-    struct op o = { .kind = OP_CLOSE, .cls = Y_IO, .a = fd };
-    if (fd < VFD_BASE) return __real_close(fd);
+    struct op o = { .kind = OP_CLOSE, .cls = Y_IO, .a = vmap(fd) };
+    if (vmap(fd) < VFD_BASE) return __real_close(fd);
     return (int) sched_do(o)->ret;
 }
 int __wrap_fcntl(int fd, int cmd, ...)
@@ -1033,7 +1063,7 @@ int __wrap_fcntl(int fd, int cmd, ...)
     va_start(ap, cmd);
     arg = va_arg(ap, long);
     va_end(ap);
-    if (fd >= VFD_BASE) return 0;
+    if (vmap(fd) >= VFD_BASE) return 0;
     return __real_fcntl(fd, cmd, arg);
 }
 int __wrap_fputs(const char *s, FILE *f)
@@ -1141,6 +1171,7 @@ int main(int argc, char **argv)
         else if (!strcmp(k, "spinlimit")) spin_limit = atol(v);
         else if (!strcmp(k, "reltime")) reltime = atoi(v);
         else if (!strcmp(k, "connerr")) stub_connerr = atoi(v);
+        else if (!strcmp(k, "lowfds")) { int m = atoi(v), b; for (b = 0; b < 3; b++) low_owner[b] = (m >> b) & 1 ? -1 : -2; }
         else if (!strcmp(k, "seed")) { rng = 88172645463325252ULL ^ ((uint64_t) atoll(v) * 0x9e3779b97f4a7c15ULL); if (!rng) rng = 1; rnd(); rnd(); }
         else if (!strcmp(k, "spurious")) { spur_rate = atoi(v); v = strtok(NULL, " \t\n"); spur_max = v ? atoi(v) : 1000000; }
         else if (!strcmp(k, "tickrate")) tick_rate = atoi(v);
@@ -1166,6 +1197,7 @@ int main(int argc, char **argv)
         } else if (h && !strcmp(k, "rc")) h->destroy_rc = atoi(v);
         else if (h && !strcmp(k, "life")) { h->life = atol(v); h->life_set = 1; }
         else if (h && !strcmp(k, "ignoreterm")) h->ignoreterm = atoi(v);
+        else if (h && !strcmp(k, "termgrace")) h->termgrace = atol(v);
         else if (h && !strcmp(k, "destroyhang")) h->destroy_hang = atoi(v);
         else if (h && (!strcmp(k, "out") || !strcmp(k, "err"))) {
             struct script *s = &h->s[k[0] == 'e'];
